@@ -164,6 +164,17 @@ Example C02_by_name_forms_example :
 ")%string.
 Proof. split; [cbn; repeat split; lia|]. split; [cbn; repeat split; reflexivity|]. repeat split; vm_compute; reflexivity. Qed.
 
+(* ... and the special / system properties written: set the <property> = v (SSetThe, 5D 00 / 5D 07) *)
+Example C02_set_the_example :
+  let en := Build_env ["x"] [] [] [] [] in
+  wf_s en (SSetThe TSystem 27 (EInt 5)) /\ text_ok_s en [] (SSetThe TSystem 27 (EInt 5)) /\
+  compile_s (SSetThe TSystem 27 (EInt 5)) = [Byte.x41; Byte.x05; Byte.x41; Byte.x1b; Byte.x5d; Byte.x07] /\
+  gen_lingo (reify_s en [] 0 (SSetThe TSystem 27 (EInt 5))) 1 = ("    set the stageColor = 5" ++ "
+")%string /\
+  gen_lingo (reify_s en [] 0 (SSetThe TSpecial 0 (EInt 4))) 1 = ("    set the floatPrecision = 4" ++ "
+")%string.
+Proof. split; [cbn; repeat split; try lia; right; reflexivity|]. split; [cbn; repeat split; reflexivity|]. repeat split; vm_compute; reflexivity. Qed.
+
 (* Statement lines: the line emitted for a decompiled assignment or statement-position call is the canonical
    line of the SOURCE statement - "set <target> = <expression>" with the target written as a variable, or as
    "the <name>" for a property the script does not declare; "<handler> <arguments>" without parentheses. *)
